@@ -58,6 +58,44 @@ Theorem C16_forward_unmatched : forall rules r n e,
        = (set_rcpts e (map (fwd_rcpt rule subn rules) (rcpts e)) (rid e), None, n).
   Proof. intros. split; [apply forward_unmatched|reflexivity]. Qed.
 
+  (* "matched" is re.subn's substitution count, not "the text changed": a rule that
+     matches the recipient (changes > 0) and reproduces the same text - an exemption
+     in front of a catch-all - wins and stops the scan; whatever rules follow
+     (also ones that would rewrite r), the result is r, as if they were not there *)
+Theorem C16_forward_identity_match_stops : forall pre ru post r ch,
+    Forall (fun q => hits rule subn q r = false) pre -> subn ru r = (r, ch) -> r <> [] -> 0 < ch ->
+    fwd_rcpt rule subn (pre ++ ru :: post) r = r
+    /\ fwd_rcpt rule subn (pre ++ ru :: post) r = fwd_rcpt rule subn (pre ++ [ru]) r.
+  Proof. exact (forward_identity_match_stops rule subn). Qed.
+
+  (* AddDateHeader / AddMessageIdHeader look at the presence of the field NAME
+     (case-insensitively, anywhere in the block), not at its value: a field with
+     ANY value v - in particular the empty one - makes the policy a no-op *)
+Theorem C16_present_header_suppresses : forall nm v h1 h2 n e,
+    hdr e = h1 ++ (nm, v) :: h2 ->
+    (ieq nm n_date = true -> apply rule subn lower date_of mid_of recv_of PDate n e = (e, None, n))
+    /\ (ieq nm n_mid = true -> apply rule subn lower date_of mid_of recv_of PMid n e = (e, None, n)).
+  Proof. exact (present_suppresses rule subn lower date_of mid_of recv_of). Qed.
+
+  (* added only when absent, for whole chains: in every written envelope the Date
+     (Message-Id) fields are exactly the original ones, values untouched, when the
+     original has one (present-but-empty included) ... *)
+Theorem C16_date_mid_kept_when_present : forall chain n0 e x, fresh_input e n0 ->
+    In x (results (run chain n0 e)) ->
+    (has_header n_date (hdr e) = true -> named n_date (hdr x) = named n_date (hdr e))
+    /\ (has_header n_mid (hdr e) = true -> named n_mid (hdr x) = named n_mid (hdr e)).
+  Proof. exact (present_kept rule subn lower date_of mid_of recv_of). Qed.
+
+  (* ... and when it has none there is exactly one iff the policy is in the chain,
+     however often and wherever *)
+Theorem C16_date_mid_added_once_when_absent : forall chain n0 e x, fresh_input e n0 ->
+    In x (results (run chain n0 e)) ->
+    (has_header n_date (hdr e) = false ->
+       map fst (named n_date (hdr x)) = if existsb (is_date rule) chain then [n_date] else [])
+    /\ (has_header n_mid (hdr e) = false ->
+       map fst (named n_mid (hdr x)) = if existsb (is_mid rule) chain then [n_mid] else []).
+  Proof. exact (absent_added_once rule subn lower date_of mid_of recv_of). Qed.
+
   (* policies returning their input among their outputs: returning [envelope]
      changes nothing; PKeepSplit really returns the input object (all theorems
      above cover chains with these policies) *)
@@ -77,4 +115,8 @@ Print Assumptions C16_no_sharing.
 Print Assumptions C16_headers.
 Print Assumptions C16_forward_first_match.
 Print Assumptions C16_forward_unmatched.
+Print Assumptions C16_forward_identity_match_stops.
+Print Assumptions C16_present_header_suppresses.
+Print Assumptions C16_date_mid_kept_when_present.
+Print Assumptions C16_date_mid_added_once_when_absent.
 Print Assumptions C16_input_among_outputs.
